@@ -6,7 +6,7 @@ def cfg21_ok(dll):
             and implies(not is_none(dll._minimum_tp_rts_cts_dt_interval), dll._minimum_tp_rts_cts_dt_interval > 0))
 
 
-@unit("j1939.j1939_21:J1939_21._buffer_hash", props=["C01", "C10", "C06"])
+@unit("j1939.j1939_21:J1939_21._buffer_hash", replay="native", props=["C01", "C10", "C06"])
 def _(self: "J1939_21", src_address: "int", dest_address: "int"):
     requires(-2**40 <= src_address < 2**40, -2**40 <= dest_address < 2**40)
     ensures("C10.j21.hash", result == hash21(src_address, dest_address), 0 <= result < 65536)
